@@ -33,7 +33,7 @@ Ex1 == {<<"e1">>}
 Ex2 == {<<"e1">>, <<"e1", "e2">>}
 Old2 == {<<>>, <<"a", "z">>}
 Old3 == {<<>>, <<"a">>, <<"a", "z">>}
-SomeProgs == {ProgAddA, ProgAddB, ProgDropA, ProgRenAC, ProgMutate, ProgGrow, ProgCount2, ProgFatal, ProgRelabel}
+SomeProgs == {ProgAddA, ProgAddB, ProgDropA, ProgRenAC, ProgMutate, ProgGrow, ProgCount2, ProgFatal, ProgRelabel, ProgWiden}
 NoOps == {}
 
 PipeInput(x) ==
